@@ -82,6 +82,9 @@ func c02Token(tok string, c c03Cfg) string {
 		return c.LD + " x"
 	case "OPEN_COMMENT":
 		return c.LC + " c"
+	case "OPEN_COMMENT_OVERLAP":
+		// the opening marker directly followed by the rest of the closing one ({*}): still open
+		return c.LC + c.RC[1:]
 	case "OPEN_STRING":
 		return c.LD + ` "abc ` + c.RD
 	}
@@ -178,7 +181,11 @@ func c02Worker(_ []string) int {
 		if name != "A" {
 			opts = append(opts, jet.WithDelims(c.LD, c.RD))
 			if name != "B" {
-				opts = append(opts, jet.WithCommentDelims(c.LC, c.RC))
+				if name == "F" {
+					opts = append(opts, jet.WithCommentDelims(c.LC, ""))
+				} else {
+					opts = append(opts, jet.WithCommentDelims(c.LC, c.RC))
+				}
 			}
 		}
 		return jet.NewSet(l, opts...), l
